@@ -30,7 +30,12 @@ def loss_scenario(rng):
     by_expiry = rng.random() < 0.6
     owner = 1 if by_expiry else 0
     mine = rng.sample(range(n), rng.randrange(1, n))
-    L.append([H.PROVIDE, owner, len(mine)] + mine)
+    if not by_expiry and rng.random() < 0.5:
+        # the owner sits behind the kuksa.val.v2 OpenProviderStream handler (in process): it is lost by dropping its
+        # response stream, so that the handler's own Provider::is_available decides
+        L.append([H.LPROV, owner, len(mine)] + sum(([3, i] for i in mine), []))
+    else:
+        L.append([H.PROVIDE, owner, len(mine)] + mine)
     others = [i for i in range(n) if i not in mine]
     if others and rng.random() < 0.5:
         L.append([H.PROVIDE, 0, len(others)] + others)
